@@ -36,6 +36,8 @@ fn gens(tier: Tier) -> Vec<Gen> {
 
 pub struct Case {
     pub status_line: &'static str,
+    /// header fields that take no part in the framing (persistence announcements, metadata)
+    pub extra_headers: Vec<(String, Vec<u8>)>,
     pub framing: Framing,
     pub payload: Vec<u8>,
     pub sizes: Vec<usize>,
@@ -49,7 +51,7 @@ pub struct Case {
 }
 
 pub fn run_case(ctx: &mut Ctx, c: &Case) {
-    let built = build_response(c.status_line, &[], c.framing, &c.payload, &c.sizes, &c.styles, &c.garbage);
+    let built = build_response(c.status_line, &c.extra_headers, c.framing, &c.payload, &c.sizes, &c.styles, &c.garbage);
     let steps: Vec<Step> = match c.head_bytewise {
         None => c.seg.apply(&built.wire),
         Some(bw) => {
@@ -257,6 +259,7 @@ fn run_allsplits(ctx: &mut Ctx, _rng: &mut Rng, index: u64) {
     let plan = plans[(idx % plans.len() as u64) as usize].clone();
     let c = Case {
         status_line: "HTTP/1.1 200 OK",
+        extra_headers: if idx % 3 == 1 { vec![("Connection".to_owned(), b"keep-alive".to_vec())] } else { vec![] },
         framing: s.framing,
         payload: s.payload.to_vec(),
         sizes: s.sizes.to_vec(),
@@ -325,7 +328,7 @@ fn run_splitpoints(ctx: &mut Ctx, _rng: &mut Rng, index: u64) {
         ReadPlan::WriteTo,
     ];
     let plan = plans[(idx % 4) as usize].clone();
-    let c = Case { status_line: "HTTP/1.1 200 OK", framing, payload, sizes, styles, garbage, seg, head_bytewise: None, plan, extra_reads: 2 };
+    let c = Case { status_line: "HTTP/1.1 200 OK", extra_headers: vec![], framing, payload, sizes, styles, garbage, seg, head_bytewise: None, plan, extra_reads: 2 };
     ctx.count("splitpoint_cases", 1);
     run_case(ctx, &c);
 }
@@ -355,7 +358,14 @@ fn run_random(ctx: &mut Ctx, rng: &mut Rng, _index: u64) {
     let status_line = *rng.pick(&["HTTP/1.1 200 OK", "HTTP/1.1 200", "HTTP/1.0 200 OK", "HTTP/1.1 200 Fine And Dandy", "HTTP/1.1 200 OK", "HTTP/1.1 201 Created", "HTTP/1.1 404 Not Found", "HTTP/1.1 503 Busy", "HTTP/1.1 300 Multiple Choices", "HTTP/1.1 305 Use Proxy", "HTTP/1.1 306 Unused", "HTTP/1.1 399 Unassigned"]);
     ctx.set_add("status_lines", status_line.to_owned());
     // hot offsets need the wire: build once here (cheap relative to the run)
-    let b = build_response(status_line, &[], framing, &payload, &sizes, &styles, &garbage);
+    // fields that take no part in the framing: a body without a declared length still runs to
+    // the end of the connection when the peer announces a persistent connection
+    const EXTRA_POOL: &[(&str, &str)] = &[("Connection", "keep-alive"), ("connection", "Keep-Alive, Upgrade"), ("Connection", "close"), ("Keep-Alive", "timeout=5, max=100"), ("Server", "c01"), ("Content-Type", "application/octet-stream"), ("Date", "Mon, 05 Oct 2026 00:00:00 GMT"), ("Vary", "Accept-Encoding"), ("Proxy-Connection", "keep-alive")];
+    let extra_headers: Vec<(String, Vec<u8>)> = (0..rng.below(3)).map(|_| { let (k, v) = *rng.pick(EXTRA_POOL); (k.to_owned(), v.as_bytes().to_vec()) }).collect();
+    if extra_headers.iter().any(|(_, v)| v.to_ascii_lowercase().starts_with(b"keep-alive")) {
+        ctx.count("heads_announcing_a_persistent_connection", 1);
+    }
+    let b = build_response(status_line, &extra_headers, framing, &payload, &sizes, &styles, &garbage);
     let hot = respgen::hot_offsets(&b.wire[..b.wire.len().min(70_000)], b.head_len);
     let seg = respgen::random_segmentation(rng, b.wire.len(), &hot);
     let plan = client::random_plan(rng);
@@ -364,7 +374,7 @@ fn run_random(ctx: &mut Ctx, rng: &mut Rng, _index: u64) {
         ReadPlan::Loop { sizes: s, via_split } if len > 100_000 && s.iter().all(|&x| x <= 3) => ReadPlan::Loop { sizes: vec![1, 4096, 0, 7], via_split },
         p => p,
     };
-    let c = Case { status_line, framing, payload, sizes, styles, garbage, seg, head_bytewise: None, plan, extra_reads: rng.range(1, 3) };
+    let c = Case { status_line, extra_headers, framing, payload, sizes, styles, garbage, seg, head_bytewise: None, plan, extra_reads: rng.range(1, 3) };
     if std::env::var_os("VERIF_DEBUG").is_some() {
         eprintln!("C01 random: framing={} payload={} chunks={} seg={} plan={} wire={}", c.framing.name(), c.payload.len(), c.sizes.len(), c.seg.describe().chars().take(80).collect::<String>(), c.plan.describe(), b.wire.len());
     }
@@ -414,7 +424,7 @@ fn run_large(ctx: &mut Ctx, rng: &mut Rng, index: u64) {
         3 => ReadPlan::Loop { sizes: vec![4096, 7, 1], via_split: false },
         _ => ReadPlan::WriteTo,
     };
-    let c = Case { status_line: "HTTP/1.1 200 OK", framing, payload, sizes, styles, garbage: b"GARBAGE".to_vec(), seg, head_bytewise: None, plan, extra_reads: 2 };
+    let c = Case { status_line: "HTTP/1.1 200 OK", extra_headers: vec![], framing, payload, sizes, styles, garbage: b"GARBAGE".to_vec(), seg, head_bytewise: None, plan, extra_reads: 2 };
     run_case(ctx, &c);
 }
 
